@@ -11,6 +11,7 @@ import JxlModel.Driver.C06
 import JxlModel.Driver.C04
 import JxlModel.Driver.C15
 import JxlModel.Driver.C05
+import JxlModel.Driver.C12
 
 def main (args : List String) : IO UInt32 := do
   match args with
@@ -31,4 +32,5 @@ def main (args : List String) : IO UInt32 := do
   | ["c04enc"] => Jxl.Driver.C04.mainEnc; return 0
   | ["c15"] => Jxl.Driver.C15.main; return 0
   | ["c05"] => Jxl.Driver.C05.main; return 0
+  | ["c12"] => Jxl.Driver.C12.main; return 0
   | _ => IO.eprintln "usage: jxlmodel <component>"; return 2
